@@ -257,6 +257,8 @@ impl Workload {
             job.read_access
         );
 
+        #[cfg(fontc_verif)]
+        crate::verif_hooks::insert(&job.id, &job.work, &job.read_access);
         self.job_count += 1;
         self.count_pending
             .entry(job.id.discriminant())
@@ -336,6 +338,8 @@ impl Workload {
 
         if !glyph.emit_to_binary {
             trace!("Skipping execution of {be_id:?}; it does not emit to binary");
+            #[cfg(fontc_verif)]
+            crate::verif_hooks::event("complete_now", &be_id, None);
             for counter in self.counters(&be_id) {
                 counter.fetch_sub(1, Ordering::AcqRel);
             }
@@ -366,7 +370,9 @@ impl Workload {
             "Updating {be_id:?} deps from {:?} to {deps:?}",
             be_job.read_access
         );
-        be_job.read_access = deps
+        be_job.read_access = deps;
+        #[cfg(fontc_verif)]
+        crate::verif_hooks::event("rewrite", &be_id, Some(&be_job.read_access));
     }
 
     fn handle_success(
@@ -377,6 +383,8 @@ impl Workload {
         timing: JobTime,
     ) -> Result<(), Error> {
         log::debug!("{success:?} successful");
+        #[cfg(fontc_verif)]
+        let _verif_scope = crate::verif_hooks::deliver_scope(&success);
 
         self.timer.add(timing);
 
@@ -408,6 +416,12 @@ impl Workload {
                 .get_mut(&BeWorkIdentifier::Glyf.into())
                 .expect("Glyf has to be pending");
             glyf_loca_job.read_access = glyf_loca_deps.build().into();
+            #[cfg(fontc_verif)]
+            crate::verif_hooks::event(
+                "rewrite",
+                &BeWorkIdentifier::Glyf.into(),
+                Some(&glyf_loca_job.read_access),
+            );
 
             // Resolve the Access::Unknown for gvar, same race as glyf/loca; see issue #1436
             let mut gvar_deps = AccessBuilder::<AnyWorkId>::new()
@@ -422,6 +436,12 @@ impl Workload {
                 .get_mut(&BeWorkIdentifier::Gvar.into())
                 .expect("Gvar has to be pending");
             gvar_job.read_access = gvar_deps.build().into();
+            #[cfg(fontc_verif)]
+            crate::verif_hooks::event(
+                "rewrite",
+                &BeWorkIdentifier::Gvar.into(),
+                Some(&gvar_job.read_access),
+            );
         }
 
         if let AnyWorkId::Fe(FeWorkIdentifier::KerningLocations) = success {
@@ -444,6 +464,13 @@ impl Workload {
                 .variant(FeWorkIdentifier::KernInstance(NormalizedLocation::default()))
                 .build()
                 .into();
+            #[cfg(fontc_verif)]
+            if let Some(j) = self
+                .jobs_pending
+                .get(&AnyWorkId::Be(BeWorkIdentifier::GatherIrKerning))
+            {
+                crate::verif_hooks::event("rewrite", &j.id, Some(&j.read_access));
+            }
         }
 
         if let AnyWorkId::Be(BeWorkIdentifier::GatherIrKerning) = success {
@@ -464,6 +491,13 @@ impl Workload {
                 .variant(FeWorkIdentifier::StaticMetadata)
                 .build()
                 .into();
+            #[cfg(fontc_verif)]
+            if let Some(j) = self
+                .jobs_pending
+                .get(&AnyWorkId::Be(BeWorkIdentifier::GatherBeKerning))
+            {
+                crate::verif_hooks::event("rewrite", &j.id, Some(&j.read_access));
+            }
         }
 
         if let AnyWorkId::Fe(FeWorkIdentifier::Glyph(glyph_name)) = success {
@@ -639,6 +673,8 @@ impl Workload {
                             let job = self.jobs_pending.get_mut(id).unwrap();
                             log::trace!("Start {id:?}");
                             job.running = true;
+                            #[cfg(fontc_verif)]
+                            crate::verif_hooks::event("launch", id, Some(&job.read_access));
 
                             let mut work =
                                 AnyWork::AlsoComplete(id.clone(), job.read_access.clone());
@@ -698,6 +734,8 @@ impl Workload {
                             // references:
                             // <https://doc.rust-lang.org/nomicon/exception-safety.html#exception-safety>
                             // <https://doc.rust-lang.org/std/panic/trait.UnwindSafe.html>
+                            #[cfg(fontc_verif)]
+                            crate::verif_hooks::job_scope_enter(&id);
                             let result = match std::panic::catch_unwind(AssertUnwindSafe(|| {
                                 work.exec(work_context)
                             })) {
@@ -712,6 +750,8 @@ impl Workload {
                             // before our success result has passed through the channel
                             // At peak times, such as completion of tons of glyphs, the channel seems
                             // to have tens of ms of delay.
+                            #[cfg(fontc_verif)]
+                            crate::verif_hooks::job_scope_exit(&id, result.is_ok());
                             if result.is_ok() {
                                 for counter in counters {
                                     counter.fetch_sub(1, Ordering::AcqRel);
